@@ -772,8 +772,10 @@ class Module:
             idx_dup = [i for i, e in enumerate(ev) if e[0] == 'dup_buffer']
             idx_rd = [i for i, e in enumerate(ev) if e[0] == 'read']
             idx_wr = [i for i, e in enumerate(ev) if e[0] == 'write']
-            if len(idx_dup) != 1:
-                self.add(['C05', 'C06'], 'G-CONV', b.key, 'conversion copies the old buffer %d times' % len(idx_dup))
+            if len(idx_dup) == 0 and not keep:
+                pass    # nothing is carried over: starting from a fresh buffer is as good as copying the old one
+            elif len(idx_dup) != 1:
+                self.add(['C05', 'C06'], 'G-CONV', b.key, 'conversion copies the old buffer %d times although fields are carried over' % len(idx_dup))
             else:
                 d = ev[idx_dup[0]]
                 if d[3] != 'manually_drop':
